@@ -161,6 +161,9 @@ def run(ctx):
                 elif len(words) >= 2:
                     ctx.nontrivial_add(l2)
     ctx.sample({'ptb': 'see lines in replay files'})
+    import file_common
+    cases += file_common.file_suite(ctx, 'ptb', ctx.budget(250, 2500))
+    cases += file_common.file_suite(ctx, 'ja', ctx.budget(200, 2000), lang_of=lambda i: 'ja')
     ctx.extra['skipped_unsupported'] = common.compare_with_model(ctx, cases)
     common.conclude(ctx)
 
